@@ -80,6 +80,11 @@ CLAIMED["C09"] = ("5/C09",
    "Not covered: sum over epochs <= deposit, module balance >= remainders over histories, group gauges. Trusted: bank multi-send semantics, go/ssa.",
    "SSA origin-term / paired-argument / rounding-class rules")
 
+CLAIMED["C14"] = ("5/C14",
+   "Constant-consistency and guard rules: declared tick bounds equal the documented values and the price bounds' initialisers are the documented powers of ten, ticks-per-decade = 9*10^6; out-of-range ticks/prices are rejected by guards against exactly those constants; the 18-digit square root is used exactly for ticks >= -108000000 (prices >= 10^-12 chopped to 18 digits), the 36-digit one otherwise; RoundDownTickToSpacing makes the remainder Euclidean and returns tick or tick - remainder; the sqrt-price->tick correction compares with neighbouring ticks using >= / >= / <.",
+   "Not covered: monotonicity/exactness of tick->price over 4.5*10^8 ticks and the inverse property (numeric enumeration). Trusted: osmomath monotone square roots (C13).",
+   "go/constant evaluation + SSA guard / predicate-shape rules")
+
 NOT_YET = "check not built yet in this revision (static rule set under construction; see DESIGN.md section 5)"
 
 def main():
